@@ -3,7 +3,7 @@
 # its property (and, when that does not report it, the checks listed as alternates), reverts, and records the outcome
 # in seeded/<id>/meta.json (detected_by).  /repo must be clean; nothing else may use /repo while this runs.
 cd /verif
-declare -A ALT=( [C03d]="C12" [C03b]="C12" [C07d]="C10" [C01a]="C02" [C02b]="C01" [C02a]="C13" [C07b]="C03" [C12a]="C12" [C10b]="" [C06b]="" )
+declare -A ALT=( [C03d]="C12" [C03e]="C12" [C11f]="C12" [C07f]="C10" [C03b]="C12" [C07d]="C10" [C01a]="C02" [C02b]="C01" [C02a]="C13" [C07b]="C03" [C12a]="C12" [C10b]="" [C06b]="" )
 IDS=${@:-$(ls seeded)}
 for id in $IDS; do
   P=${id:0:3}
